@@ -123,7 +123,7 @@ def run(ctx):
     import EoN
     # --- ODE wrappers
     for name, e in odes.E.items():
-        for k in range(ctx.scale(2, 12)):
+        for k in range(ctx.scale(4, 16)):
             style = e["ic"][k % len(e["ic"])]
             G, gkind = odes.graph(ctx.rng, small=e["small"])
             kw, desc = odes.ic_kwargs(name, style, G, ctx.rng)
@@ -143,7 +143,7 @@ def run(ctx):
             twice(ctx, rep, f, args, kwargs, True)
     # --- simulators (same argument objects, fresh scripted draws each call)
     for sim in allsims.SIMS:
-        for _ in range(ctx.scale(6, 60)):
+        for _ in range(ctx.scale(15, 80)):
             c = allsims.gen_case(ctx.rng, sim)
             G, lab = sims.build_graph(c)
             idx = gen.index_of(G)
